@@ -53,9 +53,43 @@ def c12_stages(tier):
     return st
 
 
+# ------------------------------------------------------------------------------------------ iterators and metrics (C13)
+def iter_nontrivial(s):
+    # non-trivial: a run that contains a skip, or starts below the root, or a metrics script of a tree built with removals/merges
+    if s.get('kind') == 'metrics':
+        return s if any(o['op'] != 'add_child' for o in s['ops'][1:]) else None
+    if 's' in s.get('sched', []) or s.get('start', 0) != 0:
+        return s
+    return None
+
+
+def c13_stages(tier):
+    st = [Stage('iter-k2c4', 'Trace_Iter', mc=('MC_Iter', 'MC_Iter_k2c4.cfg'), nontrivial=iter_nontrivial),
+          Stage('iter-k3c4', 'Trace_Iter', mc=('MC_Iter', 'MC_Iter_k3c4.cfg'), nontrivial=iter_nontrivial)]
+    if tier == 'thorough':
+        st += [Stage('iter-k2c5', 'Trace_Iter', mc=('MC_Iter', 'MC_Iter_k2c5.cfg'), nontrivial=iter_nontrivial, mc_workers=12),
+               Stage('iter-k2c5d', 'Trace_Iter', mc=('MC_Iter', 'MC_Iter_k2c5d.cfg'), nontrivial=iter_nontrivial, mc_workers=12)]
+    return st
+
+
 NOT_APPLICABLE = {}
 
 CHECKS = {
+    'C13': {
+        'stages': c13_stages,
+        'level': 'model_checking',
+        'level_text': 'The cursor state machines (spec/Traversal.tla: DfsPre, DfsEdge, Bfs with stack/queue, last_push, size bounds) are '
+                      'model-checked against recursive reference traversals and the size_hint bracket on every arena reachable by '
+                      'add/remove/merge with <= CAP slots, every start node and every next/skip schedule; every completed run and every arena '
+                      '(metrics) is replayed on the real crate and TLC compares items, hints and metrics.',
+        'level_note': 'Small scope (K in {2,3}, <= 4/5 slots; repeated skips in the K=2 instances). skip_subtree on a DfsEdge cursor before '
+                      'the first item is not generated (no item returned yet). depth() is read as the number of edges of the longest root path '
+                      '(pinned by the repository test test_depth).',
+        'design_ref': 'DESIGN.md 6/C13',
+        'rule': 'one script per completed cursor run (arena build history x kind x start x schedule) and one metrics script per arena; '
+                'non-trivial = run with a skip or a start below the root, or metrics of an arena built with removals/merges',
+        'assumptions': ['trees are non-empty (Tree::new + add_root)', 'mean/variance compared as exact rationals (n*mean, n(n-1)*variance)'],
+    },
     'C12': {
         'stages': c12_stages,
         'level': 'model_checking',
